@@ -303,9 +303,36 @@ PUMPED_FIXED = ["/" + "a" * 60 + "/", "//" + "ab//" * 16 + "/", "//0123456789abc
                 " " * 200, ("abandon " * 40).strip() + "  x", "a1" * 45 + "!", "1" * 90 + "0"]
 
 
+def boundary_triple_phrases():
+    """Monero / Electrum v1 sentences of valid list words in which one word triple packs to a boundary value of the 32-bit chunk (2^32 − 1,
+    exactly 2^32, 2^32 + 1, the largest packable value n^3 − 1), at the first and at the last triple position; the other triples pack to 0.
+    Word lists are the pinned copies under /verif/golden (proved equal to /repo's by the C17 table theorems)"""
+    import os
+    from harness.core import VERIF
+    out = []
+    for rel in ("monero/ENGLISH.txt", "monero/FRENCH.txt", "electrum_v1/ENGLISH.txt"):
+        try:
+            words = open(os.path.join(VERIF, "golden", rel), encoding="utf-8").read().split()
+        except OSError:
+            continue
+        nw = len(words)
+        for v in (2**32 - 1, 2**32, 2**32 + 1, nw**3 - 1, 2**31):
+            w1 = v % nw
+            w2 = ((v // nw) % nw + w1) % nw
+            w3 = ((v // (nw * nw)) + w2) % nw
+            tri = [words[w1], words[w2], words[w3]]
+            zero = [words[0]] * 3
+            out.append(" ".join(tri + zero * 3))
+            out.append(" ".join(zero * 3 + tri))
+    return out
+
+
+BOUNDARY_PHRASES = boundary_triple_phrases()
+
+
 def str_inputs(rng, seeds, n):
     """(must-run inputs, sampled inputs)"""
-    must = list(WEIRD) + list(seeds) + list(PUMPED_FIXED)
+    must = list(WEIRD) + list(seeds) + list(PUMPED_FIXED) + list(BOUNDARY_PHRASES)
     for s in seeds:
         must += reencoded_truncations(s)
         must += case_expanding_variants(s)
